@@ -12,6 +12,7 @@ import (
 
 	"github.com/gordian-engine/gordian/gexchange"
 	"github.com/gordian-engine/gordian/internal/gchan"
+	"github.com/gordian-engine/gordian/internal/verifhook"
 	"github.com/gordian-engine/gordian/tm/tmcodec"
 	"github.com/gordian-engine/gordian/tm/tmconsensus"
 	"github.com/gordian-engine/gordian/tm/tmp2p"
@@ -190,6 +191,8 @@ func (c *Connection) background(ctx context.Context) {
 			//
 			// Perhaps the alternative is to have a fixed method as the topic validator,
 			// and use sync/atomic to swap the handler.
+
+			verifhook.Point(ctx, "tmlibp2p.sethandler.gap")
 
 			// Always reassign a topic validator.
 			if req.Handler == nil {
